@@ -495,6 +495,6 @@ def run(ctx):
     ctx.include("C01.13", "discharges the indexing and unwraps of the anonymous-component expansion: the argument list is matched against the declared inputs by the same list the expansion walks (shared with C18.4)", c18.rule_binding)
     import c14
 
-    ctx.include("C01.15", "discharges `NonEmptyVec from a version range that is never empty` (update_declarations): the versions declared for a local are the whole range, or 0..1 when there is none (shared with C14.6)", c14.rule_declarations, only=["local-versions", "locals-all-versions"])
+    ctx.include("C01.15", "discharges `NonEmptyVec from a version range that is never empty` (update_declarations): the versions declared for a local are the whole range, or 0..1 when there is none (shared with C14.6)", c14.rule_declarations, only=["local-versions", "locals-all-versions", "declares-every-version", "statement-lists-the-versions"])
     ctx.include("C01.9", "discharges Meta::get_file_id and the renderer's label assertion: every node gets its file id, spans are ordered token boundaries (shared with C04.4/C04.5)", c04.rule_grammar_spans, c04.rule_fill)
     ctx.include("C01.10", "discharges indexing of template arguments: an instantiation is inspected only after its name and arity were tested (shared with C11.3)", lambda c: c11.rule_thresholds(c, c11.rule_primes(c) or {}), only=["name-and-arity", "update_components", "size-is-first-argument", "table/no-panic", "table/nothing-else-flagged"])
